@@ -52,7 +52,8 @@ class Run:
         self.eng.start()
         self.uidmap = {}
         for u in range(self.ntypes):
-            r = self.eng.cmd(f'DEFINE {tname(u)} FIELDS {{ k: "int" }}')
+            fields = '{ k: "int", note: "string | null" }' if self.cfg.get("notes") else '{ k: "int" }'
+            r = self.eng.cmd(f'DEFINE {tname(u)} FIELDS {fields}')
             uid = self.eng.cmd(f"!uid {tname(u)}").get("uid")
             if uid:
                 self.uidmap[uid] = u
@@ -142,12 +143,21 @@ class Run:
         self.obs.append(o)
         self.tokens.append("O")
 
+    def payload(self, k):
+        """{"k": k} or, in histories with notes, also a long text of multi-byte characters whose byte alignment
+        varies from event to event (serialised WAL lines of 150..900 bytes)"""
+        if not self.cfg.get("notes"):
+            return '{"k": %d}' % k
+        base = ["\u65e5\u672c\u8a9e\u30c6\u30ad\u30b9\u30c8", "\u00e9\u00e8\u00fc\u00f1", "\U0001f600\U0001f680", "\u4e2d\u6587"][k % 4]
+        text = "x" * (k % 5) + (base * 60)[: 30 + (k * 37) % 200]
+        return '{"k": %d, "note": "%s"}' % (k, text)
+
     def do_store(self, u, c):
         self.k += 1
         k = self.k
         self.pending_store = f"S{k}.{c}.{u}"
         self.maybe.append((k, u, c))
-        r = self.eng.cmd(f'STORE {tname(u)} FOR {cname(c)} PAYLOAD {{"k": {k}}}')
+        r = self.eng.cmd(f'STORE {tname(u)} FOR {cname(c)} PAYLOAD {self.payload(k)}')
         if '"status":200' in r.get("out", ""):
             # acknowledged; it counts as APPLIED only once the shard processed it and the WAL thread
             # wrote it (quiesce below) - until then a crash may legitimately lose it
@@ -223,7 +233,7 @@ class Run:
                         self.k += 1
                         k = self.k
                         self.pending_fifo.append(f"S{k}.{op[2]}.{op[1]}")
-                        r = self.eng.cmd(f'STORE {tname(op[1])} FOR {cname(op[2])} PAYLOAD {{"k": {k}}}')
+                        r = self.eng.cmd(f'STORE {tname(op[1])} FOR {cname(op[2])} PAYLOAD {self.payload(k)}')
                         if '"status":200' in r.get("out", ""):
                             self.racing_acked.append((k, op[1], op[2]))
                         self.eng.rows(f"QUERY {tname(op[1])} RETURN [k]")
@@ -232,7 +242,7 @@ class Run:
                         self.k += 1
                         k = self.k
                         self.pending_fifo.append(f"S{k}.{op[2]}.{op[1]}")
-                        r = self.eng.cmd(f'STORE {tname(op[1])} FOR {cname(op[2])} PAYLOAD {{"k": {k}}}')
+                        r = self.eng.cmd(f'STORE {tname(op[1])} FOR {cname(op[2])} PAYLOAD {self.payload(k)}')
                         if '"status":200' in r.get("out", ""):
                             self.racing_acked.append((k, op[1], op[2]))
                         self.eng.cmd("!wal_drained 1500"); self.eng.cmd("!sleep 20")
@@ -446,7 +456,7 @@ class Run:
                             self.k += 1
                             k = self.k
                             self.pending_store = f"S{k}.{nxt[2]}.{nxt[1]}"
-                            self.eng.cmd(f'!bg STORE {tname(nxt[1])} FOR {cname(nxt[2])} PAYLOAD {{"k": {k}}}')
+                            self.eng.cmd(f'!bg STORE {tname(nxt[1])} FOR {cname(nxt[2])} PAYLOAD {self.payload(k)}')
                             pend = (k, nxt[1], nxt[2])
                         else:
                             self.tokens.append("F")
